@@ -16,7 +16,7 @@ META = {
     ),
     "anchors": ["fermionic_core.tensordot_fermionic", "fermionic_core.resolve_combined_oddpos", "fermionic_local_operators.FermionicOperator.__lt__", "fermionic_core.FermionicArray.einsum", "fermionic_core.FermionicArray.transpose"],
     "floors": {
-        "quick": {"evaluations": 2500, "distinct_nontrivial": 150, "tables": {"networks": 300, "feature/odd>=2": 150, "feature/conjugated-tensor": 80, "feature/multi-label-operand": 40, "route/split-einsum": 150, "feature/bra-ket-label-pairs": 300, "feature/shared-legs>=6": 100, "feature/tensor-of-dense-size>=2**22": 6}},
+        "quick": {"evaluations": 2500, "distinct_nontrivial": 150, "tables": {"networks": 300, "feature/odd>=2": 150, "feature/conjugated-tensor": 80, "feature/multi-label-operand": 40, "route/split-einsum": 150, "feature/bra-ket-label-pairs": 300, "feature/shared-legs>=6": 100, "feature/tensor-of-dense-size>=2**22": 4}},
         "thorough": {"evaluations": 150000, "distinct_nontrivial": 8000, "tables": {"networks": 10000, "feature/odd>=2": 5000}},
     },
     "wall": {"quick": 900, "thorough": 1700},
